@@ -149,7 +149,11 @@ func c07(w *World) {
 			raw = cl.Msg("1", F(TagTestReqID, "x"+itoa(i)))
 		case 2:
 			last = "heartbeat"
-			raw = cl.Msg("0")
+			if w.W.Chance(1, 2) {
+				raw = cl.Msg("0", F(TagTestReqID, []string{"1", "2", "x"}[w.W.Draw(3)])) // looks like an answer to a TestRequest nobody sent
+			} else {
+				raw = cl.Msg("0")
+			}
 		case 3:
 			last = "logout"
 			raw = cl.Msg("5")
